@@ -119,7 +119,7 @@ class C19Both(C19):
             c = self.pool.gen_case(rng, tier)
             if not c.get("drained"):
                 nreq = sum(1 for x in c["ops"] if x[0] == "I")
-                c["drained"] = [c["ops"][0][1], rng.choice([1, 2])]
+                c["drained"] = [next(o[1] for o in c["ops"] if o[0] == "I"), rng.choice([1, 2])]
                 c["ops"] = c["ops"] + p_pool.drain_ops(nreq, c["drained"][0], c["drained"][1])
             # make sure there is a cancel at a random position of the body
             body_len = len(c["ops"]) - len(p_pool.drain_ops(sum(1 for x in c["ops"] if x[0] == "I") - 1, 0, 1))
